@@ -3,7 +3,7 @@
 # Confirms a sub-agent's seeded change myself in a fresh scratch worktree: compiles, suite unchanged,
 # demo fails with / passes without; then runs the property's check against it and stores it under /verif/seeded.
 export GOFLAGS=-mod=mod GOPROXY=off GOSUMDB=off GOTOOLCHAIN=local
-P=$1; NAME=$2; PKG=$3; SRC=/tmp/seed-out/$P
+P=$1; NAME=$2; PKG=$3; SRC=${SEED_SRC:-/tmp/seed-out/$P}
 W=$(mktemp -d /tmp/seedchk-XXXXXX); rmdir $W
 git -C /repo worktree add -q --detach $W HEAD || exit 2
 trap 'git -C /repo worktree remove --force '$W' >/dev/null 2>&1' EXIT
